@@ -105,6 +105,11 @@ type c16Ext struct {
 	nRotateDelta, nRotateDeltaFault, nPeriodicElapsed, nDeltaCarried, nConfigDelta                            int
 	nKeyOK, nKeyWrong, nForeign, nOrphan, nOrphanViaTwin, nExpiredRevoke, nTidyExt, nTidyUnexpired, nAutoTidy int
 	nRevokeUnderDelta, nDeltaObserved, nTwinRevoked, nDeltaTidyHit, nDeltaRetryHit, nTidiedExpiredInWAL       int
+
+	// lease revocations; cross-signed roots of other mounts
+	nLeaseIssued, nLeaseRevoke, nLeaseRevokeAgain, nLeaseRevokeRestart, nLeaseRevokeRestartMust                                                                   int
+	cross                                                                                                                                                         []*c16Cross
+	nCrossRevoked, nCrossImported, nCrossImportedWhileRevoked, nCrossImportedLater, nCrossImportedMuchLater, nCrossImportedSignerAbsent, nCrossRevokeAgainRefused int
 }
 
 func (s *c16Sys) ext() *c16Ext {
@@ -311,18 +316,20 @@ func (s *c16Sys) checkUnion(name string, c *c16Cert, complete *x509.RevocationLi
 	if need && !inComplete && !inDelta {
 		sig := "revoked-serial-missing-from-complete-and-delta-crl"
 		switch {
+		case c.faultAfterRecord && c.mustUnion:
+			// outside the statement (delta CRL content): observation, not violation - whatever else is true of the
+			// issuer (a twin without crl-signing included: the retry that found the record already written never
+			// queued the serial for the delta CRL, which explains the gap by itself)
+			x.nDeltaRetryHit++
+			c.mustUnion = false
+			s.observe(c16SigDeltaRetry, "serial %s (issuer %s) is neither on the complete CRL (number %s) nor on a combinable delta CRL served for %s although %s; the revoke call had failed after the revocation record was written and succeeded on retry", c.serial, c.issuer, complete.Number, name, why)
+			return
 		case s.mixedCRLSigning(c.issuer) || c.lostToMixed:
 			sig = c16SigMixedUsage
 			c.lostToMixed = true
 			x.nMixedUsageHit++
 		case !c.mustUnion:
 			sig = "serial-disappeared-from-crl"
-		case c.faultAfterRecord:
-			// outside the statement (delta CRL content): observation, not violation
-			x.nDeltaRetryHit++
-			c.mustUnion = false
-			s.observe(c16SigDeltaRetry, "serial %s (issuer %s) is neither on the complete CRL (number %s) nor on a combinable delta CRL served for %s although %s; the revoke call had failed after the revocation record was written and succeeded on retry", c.serial, c.issuer, complete.Number, name, why)
-			return
 		case s.deletedEver[c.issuer]:
 			sig = "revoked-serial-missing-from-complete-and-delta-crl-after-issuer-reimport"
 		}
@@ -946,6 +953,274 @@ func (s *c16Sys) actAutoTidy() {
 	}
 }
 
+// ---- revocation through the lease machinery
+//
+// A role with generate_lease=true attaches a secret to every certificate it issues. The expiration manager (lease
+// expiry, sys/leases/revoke, revoke-prefix, revocation of the token that owns the lease) revokes such a
+// certificate with a RevokeOperation that carries the secret (secret_certs.go secretCredsRevoke -> revokeCert).
+// A nil error and a non-error response is "revocation reported successful": the lease is deleted for good.
+
+// leaseRevokeCall sends the request the expiration manager sends.
+func (s *c16Sys) leaseRevokeCall(c *c16Cert) (ok bool, resp *logical.Response, err error) {
+	c.attempted = true
+	resp, err = s.b.HandleRequest(context.Background(), &logical.Request{Operation: logical.RevokeOperation, Path: c.leasePath, Secret: c.secret,
+		Storage: s.fs, MountPoint: "pki/", Data: map[string]any{}})
+	if err == nil && resp != nil && resp.IsError() {
+		err = resp.Error()
+	}
+	if err != nil {
+		return false, resp, err
+	}
+	if resp == nil {
+		// "treating as success": what secretCredsRevoke answers when certs/<serial> is gone. The lease is deleted, the
+		// revocation counts as reported; the time it is reported with is then the one the status API gives.
+		r, rerr := s.read("cert/" + c.serial)
+		rtime := int64(0)
+		if rerr == nil && r != nil {
+			rtime, _ = r.Data["revocation_time"].(int64)
+		}
+		if rtime == 0 {
+			s.violation("lease-revocation-reported-without-revoking", "the lease revocation of %s (stored, unexpired) returned neither an error nor a response, and cert/<serial> shows no revocation (read error: %v)", c.serial, rerr)
+			return false, nil, nil
+		}
+		return true, &logical.Response{Data: map[string]any{"state": "revoked", "revocation_time": rtime, "revocation_time_rfc3339": vxStr(r.Data, "revocation_time_rfc3339")}}, nil
+	}
+	if vxStr(resp.Data, "state") != "revoked" {
+		return false, resp, nil // "already expired; refusing to add to CRL": the lease ends with the certificate
+	}
+	return true, resp, nil
+}
+
+// leaseRevoke picks (or issues) a certificate that has a lease, revokes it through the lease and returns it if the
+// revocation was reported successful.
+func (s *c16Sys) leaseRevoke() *c16Cert {
+	x := s.ext()
+	var fresh, again []*c16Cert
+	now := time.Now()
+	for _, c := range s.certs {
+		if c.secret == nil || !c.alive(now) {
+			continue
+		}
+		if c.revoked {
+			again = append(again, c) // the lease of a certificate that was revoked through the API ends later: "already revoked" branch
+		} else if !c.attempted {
+			fresh = append(fresh, c)
+		}
+	}
+	var c *c16Cert
+	switch {
+	case len(again) > 0 && (len(fresh) == 0 && !s.canIssue() || vxChance(s.rt, "leaseOfRevokedCert", 20)):
+		c = rapid.SampledFrom(again).Draw(s.rt, "leasedCert")
+	case len(fresh) > 0:
+		c = rapid.SampledFrom(fresh).Draw(s.rt, "leasedCert")
+	default:
+		s.issue("lease") // construction: no unrevoked certificate with a lease exists
+		c = s.certs[len(s.certs)-1]
+	}
+	was := c.revoked
+	ok, resp, err := s.leaseRevokeCall(c)
+	x.nLeaseRevoke++
+	s.logf("lease revocation (RevokeOperation %s) of %s (issuer %s) already-revoked=%v auto_rebuild=%v -> ok=%v err=%v", c.leasePath, c.serial, c.issuer, was, s.autoRebuild, ok, err)
+	if err != nil {
+		s.violation("revoke-failed-without-fault", "lease revocation of %s failed although no fault was injected: %v", c.serial, err)
+		return nil
+	}
+	if !ok {
+		return nil
+	}
+	if was {
+		x.nLeaseRevokeAgain++
+	}
+	s.noteSuccess(c, resp, "serial")
+	return c
+}
+
+// canIssue: issue() would not skip
+func (s *c16Sys) canIssue() bool {
+	for _, n := range s.present() {
+		if s.has(n, "issuing-certificates") {
+			return true
+		}
+	}
+	return false
+}
+
+func (s *c16Sys) actLeaseRevoke() { s.leaseRevoke() }
+
+// actLeaseRevokeRestart: the backend instance is replaced right after the lease revocation was reported, before any
+// CRL is read and before a periodic tick: whatever the revocation left to be done later must not live in memory only.
+func (s *c16Sys) actLeaseRevokeRestart() {
+	x := s.ext()
+	if c := s.leaseRevoke(); c != nil {
+		x.nLeaseRevokeRestart++
+		if c.must {
+			x.nLeaseRevokeRestartMust++
+		}
+	}
+	s.restart("after lease revocation")
+}
+
+// ---- a revoked certificate whose serial number is the serial number of a CA certificate that becomes an issuer later
+//
+// root/sign-self-issued (issuer/<ref>/sign-self-issued) re-signs the self-signed certificate it is given and keeps
+// everything else, the serial number included. R1 of this mount cross-signs root R2 of another mount: certificate X
+// has issuer R1 and the serial number of R2. X is revoked by presenting it (it is not stored here); later R2 is
+// imported (certificate and key) as an additional issuer. X stays a revoked, unexpired certificate of R1.
+
+type c16Cross struct {
+	name             string // issuer name R2 gets when it is imported
+	certPEM, keyPEM  string
+	root             *x509.Certificate
+	x                *c16Cert
+	imported         bool
+	revokedAtStep    int
+	stepsUntilImport int // actions of the state machine between the revocation and the import (0: the combined action)
+}
+
+// serialIsIssuer: an issuer present in the mount has the serial number of c (and is another certificate)
+func (s *c16Sys) serialIsIssuer(c *c16Cert) string {
+	for _, n := range s.present() {
+		if ic := s.issuerCert[n]; ic != nil && ic.SerialNumber.Cmp(c.cert.SerialNumber) == 0 && !bytes.Equal(ic.Raw, c.cert.Raw) {
+			return n
+		}
+	}
+	return ""
+}
+
+const c16MaxCross = 2 // every imported root is one more CRL (and delta CRL) to fetch and verify after every step
+
+// crossRevoke: generate R2 elsewhere, cross-sign it here, revoke the cross-signed certificate here.
+func (s *c16Sys) crossRevoke() *c16Cross {
+	x := s.ext()
+	if len(x.cross) >= c16MaxCross {
+		s.rt.Skip("enough cross-signed roots in this case")
+	}
+	signer := rapid.SampledFrom(s.issuable()).Draw(s.rt, "crossSigner")
+	// the other mount: a throw-away backend on its own storage
+	st := &logical.InmemStorage{}
+	b2, err := vxBackend(st, time.Hour, 24*time.Hour)
+	if err != nil {
+		s.rt.Fatalf("harness: second backend: %v", err)
+	}
+	defer vxClose(b2)
+	name := fmt.Sprintf("x%d", len(x.cross))
+	resp, err := vxWrite(b2, st, "root/generate/exported", map[string]any{"common_name": "verif other-mount root " + name, "key_type": "ec", "ttl": "12h"})
+	if err != nil {
+		s.rt.Fatalf("harness: root of the other mount: %v", err)
+	}
+	cr := &c16Cross{name: name, certPEM: vxStr(resp.Data, "certificate"), keyPEM: vxStr(resp.Data, "private_key"), revokedAtStep: s.step}
+	if cr.root, err = vxParseCertPEM(cr.certPEM); err != nil || cr.keyPEM == "" {
+		s.rt.Fatalf("harness: root of the other mount: %v (key %d bytes)", err, len(cr.keyPEM))
+	}
+	resp, err = s.write("issuer/"+signer+"/sign-self-issued", map[string]any{"certificate": cr.certPEM})
+	if err != nil {
+		s.rt.Fatalf("harness: sign-self-issued by %s: %v", signer, err)
+	}
+	xc, err := vxParseCertPEM(vxStr(resp.Data, "certificate"))
+	if err != nil {
+		s.rt.Fatalf("harness: %v", err)
+	}
+	if xc.SerialNumber.Cmp(cr.root.SerialNumber) != 0 || xc.CheckSignatureFrom(s.issuerCert[signer]) != nil || bytes.Equal(xc.Raw, cr.root.Raw) {
+		s.rt.Fatalf("harness: sign-self-issued did not produce a certificate of %s with the serial number of the self-signed one", signer)
+	}
+	c := &c16Cert{serial: serialFromCert(xc), cert: xc, issuer: signer, noStore: true, issuedAt: s.step, cross: cr}
+	cr.x = c
+	s.certs = append(s.certs, c)
+	s.bySerial[xc.SerialNumber.String()] = c
+	x.cross = append(x.cross, cr)
+	s.logf("root %s generated on another mount, cross-signed by %s: certificate %s (serial number of the root, not stored here)", name, signer, c.serial)
+	ok, rresp, err := s.revokeCall(c, true)
+	s.logf("revoke by certificate %s (issuer %s, cross-signed root) -> ok=%v err=%v", c.serial, signer, ok, err)
+	if err != nil {
+		s.violation("revoke-failed-without-fault", "revoke of the cross-signed certificate %s (issuer %s) failed although no fault was injected: %v", c.serial, signer, err)
+		return cr
+	}
+	if ok {
+		s.noteSuccess(c, rresp, "cert")
+		x.nCrossRevoked++
+	}
+	return cr
+}
+
+// crossImport: R2 (certificate and key) becomes an issuer of this mount. It is a new issuer like any other from
+// here on: it issues, has its own CRL, can become the default, be deleted and re-imported.
+func (s *c16Sys) crossImport(cr *c16Cross, separate bool) {
+	x := s.ext()
+	viaConfigCA := rapid.Bool().Draw(s.rt, "importViaConfigCA")
+	path := "issuers/import/bundle"
+	if viaConfigCA {
+		path = "config/ca"
+	}
+	resp, err := s.write(path, map[string]any{"pem_bundle": cr.certPEM + "\n" + cr.keyPEM + "\n"})
+	if err != nil {
+		s.violation("issuer-import-failed", "importing the root %s of another mount (certificate and key) through %s failed: %v", cr.name, path, err)
+		return
+	}
+	ids, _ := resp.Data["imported_issuers"].([]string)
+	if len(ids) != 1 {
+		s.rt.Fatalf("harness: import of %s: imported_issuers=%v existing=%v", cr.name, resp.Data["imported_issuers"], resp.Data["existing_issuers"])
+	}
+	if _, err := s.write("issuer/"+ids[0], map[string]any{"issuer_name": cr.name}); err != nil {
+		s.rt.Fatalf("harness: naming imported issuer: %v", err)
+	}
+	r, err := s.read("issuer/" + cr.name)
+	if err != nil || r == nil || r.Data["key_id"] == nil || fmt.Sprint(r.Data["key_id"]) == "" {
+		s.rt.Fatalf("harness: imported issuer %s has no key (err=%v)", cr.name, err)
+	}
+	cr.imported = true
+	if separate {
+		cr.stepsUntilImport = s.step - cr.revokedAtStep - 1
+	}
+	s.issuers = append(s.issuers, cr.name)
+	s.issuerCert[cr.name] = cr.root
+	s.fresh[cr.name], s.reimportedAt[cr.name] = true, s.step // whatever CRL it serves was built after the import
+	s.resetUsage(cr.name)
+	x.nCrossImported++
+	live := cr.x.revoked && cr.x.alive(time.Now())
+	if live {
+		x.nCrossImportedWhileRevoked++
+		if separate {
+			x.nCrossImportedLater++
+			if cr.stepsUntilImport > 0 {
+				x.nCrossImportedMuchLater++
+			}
+		}
+		if s.absent[cr.x.issuer] {
+			x.nCrossImportedSignerAbsent++
+		}
+	}
+	s.logf("import root %s (certificate and key, %s) as a new issuer; %s (issuer %s, same serial number) revoked and unexpired=%v, separate action=%v with %d actions in between", cr.name, path, cr.x.serial, cr.x.issuer, live, separate, cr.stepsUntilImport)
+}
+
+func (s *c16Sys) actCrossRevoke() { s.crossRevoke() }
+
+func (s *c16Sys) pendingCross() []*c16Cross {
+	var out []*c16Cross
+	for _, cr := range s.ext().cross {
+		if !cr.imported {
+			out = append(out, cr)
+		}
+	}
+	return out
+}
+
+// actCrossImport imports a root whose cross-signed certificate was revoked by an earlier action; if there is none
+// it prepares one (cross-sign + revoke), so that a later draw of this action finds it with other actions in between.
+func (s *c16Sys) actCrossImport() {
+	if p := s.pendingCross(); len(p) > 0 {
+		s.crossImport(rapid.SampledFrom(p).Draw(s.rt, "rootToImport"), true)
+		return
+	}
+	s.crossRevoke()
+}
+
+func (s *c16Sys) actCrossRevokeImport() {
+	cr := s.crossRevoke()
+	s.check() // the CRLs the revocation built are not CRLs built after the import
+	s.step++
+	s.crossImport(cr, false)
+}
+
 // extClasses records the coverage of the extension for one case.
 func (s *c16Sys) extClasses() {
 	x := s.ext()
@@ -981,6 +1256,24 @@ func (s *c16Sys) extClasses() {
 	one("ocsp-signing-dropped", x.nOCSPDropped)
 	one("issuing-certificates-dropped", x.nIssuingDropped)
 	one("equivalent-issuers-one-without-crl-signing", x.nMixedUsage)
+	one("lease-revocation", x.nLeaseRevoke)
+	one("lease-revocation-then-restart", x.nLeaseRevokeRestart)
+	one("lease-revocation-then-restart-crl-owed-at-once", x.nLeaseRevokeRestartMust)
+	one("cross-signed-root-revoked", x.nCrossRevoked)
+	one("issuer-imported-with-serial-of-revoked-cert", x.nCrossImportedWhileRevoked)
+	one("issuer-imported-with-serial-of-revoked-cert-by-a-later-action", x.nCrossImportedLater)
+	one("issuer-imported-with-serial-of-revoked-cert-other-actions-in-between", x.nCrossImportedMuchLater)
+	rec.Class("leased-certs-issued", int64(x.nLeaseIssued))
+	rec.Class("lease-revocations", int64(x.nLeaseRevoke))
+	rec.Class("lease-revocations-of-already-revoked", int64(x.nLeaseRevokeAgain))
+	rec.Class("lease-revocations-then-restart", int64(x.nLeaseRevokeRestart))
+	rec.Class("lease-revocations-then-restart-crl-owed-at-once", int64(x.nLeaseRevokeRestartMust))
+	rec.Class("cross-signed-roots-revoked", int64(x.nCrossRevoked))
+	rec.Class("cross-signed-roots-imported", int64(x.nCrossImported))
+	rec.Class("issuers-imported-with-serial-of-revoked-unexpired-cert", int64(x.nCrossImportedWhileRevoked))
+	rec.Class("issuers-imported-with-serial-of-revoked-unexpired-cert-by-a-later-action", int64(x.nCrossImportedLater))
+	rec.Class("issuers-imported-with-serial-of-revoked-unexpired-cert-other-actions-in-between", int64(x.nCrossImportedMuchLater))
+	rec.Class("issuers-imported-with-serial-of-revoked-cert-whose-issuer-is-deleted", int64(x.nCrossImportedSignerAbsent))
 	if x.nMixedUsageHit > 0 {
 		rec.Class("hit:"+c16SigMixedUsage, int64(x.nMixedUsageHit))
 	}
@@ -1007,6 +1300,12 @@ func (s *c16Sys) extNontrivial() (bool, string) {
 	}
 	if x.nTwinRevoked > 0 {
 		tags = append(tags, "twin-revocation")
+	}
+	if x.nLeaseRevoke > 0 {
+		tags = append(tags, "lease-revocation")
+	}
+	if x.nCrossImportedWhileRevoked > 0 {
+		tags = append(tags, "issuer-with-revoked-serial")
 	}
 	return len(tags) > 0, strings.Join(tags, "+")
 }
